@@ -48,7 +48,7 @@ PROPS["C14"] = {
 SC = "barril.units._scalar:Scalar"
 QM = "barril.units._quantity"
 PROPS["C02"] = {
-    "tasks": lambda tier: [V(UDB + ":UnitDatabase.Convert"), V(UDB + ":UnitDatabase.GetInfo"), V(QM + ":Quantity.ConvertScalarValue"), V(QM + ":Quantity.__init__"), V(QM + ":ObtainQuantity"), V(SC + ".GetAbstractValue")],
+    "tasks": lambda tier: [V(UDB + ":UnitDatabase.Convert"), V(UDB + ":UnitDatabase.GetInfo"), V(QM + ":Quantity.ConvertScalarValue"), V(QM + ":Quantity.__init__"), *VP(QM + ":ObtainQuantity", 16), V(SC + ".GetAbstractValue")],
     "level": "proof",
     "level_text": "Functional contracts, proved of the real bodies for arbitrary well-formed registries and all values: UnitDatabase.Convert (float/int/list/tuple/ndarray, elementwise, kind preserving) = conv; Quantity.ConvertScalarValue; Quantity.__init__ establishes the cached to-base function; ObtainQuantity resolution; Scalar.GetAbstractValue (own unit returns the stored value for simple and derived quantities) and CreateCopy on Scalars keep category. Routes not yet under contract: Array.GetValues, FixedArray.IndexAsScalar/ChangingIndex, ChangeScalars, UnitSystemManager.ConvertToCurrent.",
     "level_note": "floats are reals; WF/QI assumed for inputs",
@@ -111,10 +111,18 @@ STD_TRUSTED = [
     "floats as reals (A1)",
 ]
 PROPS["C05"] = {
-    "tasks": lambda tier: [V(UDB + ":UnitDatabase.GetInfo"), V(UDB + ":UnitDatabase.Convert"), V(UDB + ":UnitDatabase.CheckCategoryUnit"), V(QM + ":Quantity.__init__"), V(QM + ":ObtainQuantity"), V(QM + ":Quantity.ConvertScalarValue"), V(SC + ".__lt__#ordering")]
+    "tasks": lambda tier: [V(UDB + ":UnitDatabase.GetInfo"), V(UDB + ":UnitDatabase.Convert"), V(UDB + ":UnitDatabase.CheckCategoryUnit"), V(QM + ":Quantity.__init__"), *VP(QM + ":ObtainQuantity", 16), V(QM + ":Quantity.ConvertScalarValue"), V(SC + ".__lt__#ordering")]
     + VP(UDB + ":UnitDatabase.Sum", 3) + VP(UDB + ":UnitDatabase.Subtract", 3) + VP(OPS_KEY, 10) + VP(AOPS_KEY, 12),
     "level": "proof",
     "level_text": "Exceptional postconditions, proved of the real bodies for arbitrary well-formed registries and symbolic arguments, in both directions (raises when it must, returns when it must not): GetInfo raises InvalidUnitError iff the unit does not resolve inside the (existing) quantity type and InvalidQuantityTypeError iff the type does not exist, with the explicit Unknown exemption; Convert, Quantity.ConvertScalarValue and Scalar.GetValue inherit; CheckCategoryUnit raises iff the unit is not valid for the category on the memo-hit and the memo-miss path; Quantity.__init__/ObtainQuantity raise for a unit outside the category's quantity type (after the legacy rewrite); adding/subtracting Scalars or Arrays of different dimensions raises InvalidOperationError with dimensionless operands exempt; ordering Scalars of different quantity types raises TypeError. On every path, raising or not, the registry is proved unchanged except for consistent memo/intern-table insertions, the operand value objects and the operand quantities are unchanged (frame obligations).",
     "level_note": "arithmetic shape-bounded as C03; registry invariants WF/CC assumed for inputs; FractionScalar ordering not yet under contract",
     "trusted": STD_TRUSTED,
+}
+
+PROPS["C07"] = {
+    "tasks": lambda tier: VP(QM + ":ObtainQuantity", 16) + [V(QM + ":Quantity.__init__"), V(QM + ":Quantity#value-semantics")] + VP(UDB + ":UnitDatabase.Sum", 3) + VP(UDB + ":UnitDatabase.Multiply", 4) + VP(OPS_KEY, 10),
+    "level": "proof",
+    "level_text": "Quantity as an immutable interned value. (1) ObtainQuantity, every request form with symbolic names (unit with/without category and caption; composing maps with 1-2 entries (thorough 3), list or tuple pairs): the result is the object interned under the request's key; a repeated request returns the identical object; the intern table after the call is exactly the old table plus the keys of this request (so requests that differ in category, unit, exponent or caption never share an entry and nothing is overwritten); the new quantity owns a fresh composing map whose pairs are lists; failures leave the table unchanged. (2) Quantity.__init__ establishes the class invariant QI. (3) copy, deepcopy, Copy, MakeCopy(), CreateCopyInstance() return the object itself; SetUnknownCaption raises ReadOnlyError; == is exactly equality of (composing map, caption), symmetric, reflexive, False (never raising) against None/int/str/tuple; hash is congruent with ==; __reduce__ rebuilds an equal quantity. (4) Frame obligations: no database operation, Scalar operator, conversion or comparison under contract writes any slot of an operand quantity other than the two lazy caches, nor its composing map.",
+    "level_note": "hash() is an uninterpreted function of the ==-class (A7); pickle itself is assumed to call __reduce__'s function on copies of its arguments (A8); intern-table invariant CC(K) assumed for hits; arithmetic frames shape-bounded as C03",
+    "trusted": STD_TRUSTED + ["hash of str/float/tuple is a function of the value (A7)", "pickle protocol (A8)"],
 }
